@@ -5,6 +5,7 @@
 -/
 import AdfModel.Dev
 import AdfModel.Kernel
+import AdfModel.Salv
 namespace Adf
 
 def intOf (s : String) : Int := s.toInt?.getD 0
@@ -205,6 +206,8 @@ def stepOp1 (d : Drv) (args : List String) : List String × Drv :=
     match getFile d.w (n h) with
     | none => (noFile, d)
     | some f => ([s!"= {fileStat f} nblk={f.nDataBlock} cur={toInt32 f.curDataPtr} pidb={f.posInDataBlk} pieb={f.posInExtBlk}"], d)
+  | ["undel", _, p, par, sect] =>
+    runTop d (Top.prog (undelEntry (n p) (n par) (n sect))) fun rc _ => [s!"= rc={rc}"]
   | ["bootblock", _, p, seed] =>
     runTop d (Top.prog (installBootBlock (n p) (genData (n seed) 1024))) fun rc _ => [s!"= rc={rc}"]
   | ["imghash", _] =>
